@@ -74,6 +74,8 @@ type Engine struct {
 	globalIDs   map[*ssa.Global][2]int
 	overlay     map[string]string
 	srcLines    map[string][]string
+	curInstr    ssa.Instruction
+	inAtomic    bool
 	NoDiamond   bool
 	Diamonds    int
 }
@@ -121,6 +123,10 @@ type State struct {
 	observe []obsRec
 	reached []string
 	snaps   []snapRec
+	poolPolicy int          // sync.Pool model: 0 reuse most recent, 1 always New(), 2 fork over both
+	shared  map[int]bool    // objects reachable by other goroutines (thread-modular ownership check)
+	sharing bool
+	locks   int
 }
 
 type snapRec struct {
@@ -138,6 +144,13 @@ func (st *State) clone() *State {
 	n.observe = append([]obsRec(nil), st.observe...)
 	n.reached = append([]string(nil), st.reached...)
 	n.snaps = append([]snapRec(nil), st.snaps...)
+	n.poolPolicy, n.sharing, n.locks = st.poolPolicy, st.sharing, st.locks
+	if st.shared != nil {
+		n.shared = make(map[int]bool, len(st.shared))
+		for k := range st.shared {
+			n.shared[k] = true
+		}
+	}
 	n.pools = map[int][]Value{}
 	n.log = append([]string(nil), st.log...)
 	for k, v := range st.pools {
@@ -189,6 +202,9 @@ func (e *Engine) obj(st *State, id int) *Obj {
 }
 
 func (e *Engine) mutObj(st *State, id int) *Obj {
+	if st.sharing && st.shared[id] && !e.inAtomic && st.locks == 0 {
+		e.ownershipViolation(st, id)
+	}
 	o := e.obj(st, id).clone()
 	st.heap[id] = o
 	return o
@@ -240,8 +256,17 @@ func (e *Engine) load(st *State, p PtrV, t types.Type) Value {
 	o := e.obj(st, p.Obj)
 	switch o.Kind {
 	case OArr:
-		if len(p.Path) == 0 {
-			panic("load of whole OArr array unsupported")
+		if len(p.Path) == 0 { // whole-array load
+			elems := make([]Value, o.MaxLen)
+			for i := range elems {
+				v := o.Arr.Read(c64(uint64(i)))
+				if isBool(o.Typ) {
+					elems[i] = bv8ToBool(v)
+				} else {
+					elems[i] = v
+				}
+			}
+			return ArrayV{Elems: elems}
 		}
 		v := o.Arr.Read(p.Path[0].Idx)
 		if isBool(o.Typ) {
@@ -320,6 +345,17 @@ func (e *Engine) store(st *State, p PtrV, v Value) {
 	o := e.mutObj(st, p.Obj)
 	switch o.Kind {
 	case OArr:
+		if len(p.Path) == 0 { // whole-array store
+			av := v.(ArrayV)
+			for i, el := range av.Elems {
+				tv := el.(*Term)
+				if isBool(o.Typ) {
+					tv = boolToBV8(tv)
+				}
+				o.Arr = o.Arr.Write(c64(uint64(i)), tv)
+			}
+			return
+		}
 		tv := v.(*Term)
 		if isBool(o.Typ) {
 			tv = boolToBV8(tv)
@@ -673,6 +709,9 @@ func (e *Engine) globalPtr(st *State, g *ssa.Global) PtrV {
 	p := e.allocFor(st, t, "global:"+g.String())
 	e.nextObj = saved
 	st.globals[g] = p.Obj
+	if st.sharing {
+		st.shared[p.Obj] = true
+	}
 	// error-typed globals of non-target packages: distinct opaque errors
 	if g.Pkg != nil && !e.targets[g.Pkg.Pkg.Path()] {
 		if types.Identical(t, types.Universe.Lookup("error").Type()) {
@@ -964,6 +1003,7 @@ func (e *Engine) jump(f *Frame, to *ssa.BasicBlock) {
 }
 
 func (e *Engine) step(st *State, f *Frame, in ssa.Instruction) []*State {
+	e.curInstr = in
 	switch x := in.(type) {
 	case *ssa.DebugRef:
 	case *ssa.Phi:
@@ -1809,10 +1849,21 @@ func (e *Engine) invoke(st *State, f *Frame, x *ssa.Call, fn *ssa.Function, args
 	switch name {
 	case "(*sync.Pool).Get":
 		p := args[0].(PtrV)
-		if items := st.pools[p.Obj]; len(items) > 0 {
+		if items := st.pools[p.Obj]; len(items) > 0 && st.poolPolicy != 1 {
+			if st.poolPolicy == 2 { // fork: a state in which the pool was emptied (GC) and New() runs
+				alt := st.clone()
+				alt.poolPolicy = 3 // 3: act as "fresh" for this one re-executed Get, then back to fork
+				af := alt.frames[len(alt.frames)-1]
+				af.ip--
+				e.extraForks = append(e.extraForks, alt)
+				e.Forks++
+			}
 			f.env[x] = items[len(items)-1]
 			st.pools[p.Obj] = items[:len(items)-1]
 			return
+		}
+		if st.poolPolicy == 3 {
+			st.poolPolicy = 2
 		}
 		// field New is the last field of sync.Pool
 		pt := deref(fn.Params[0].Type()).Underlying().(*types.Struct)
@@ -2152,6 +2203,19 @@ func (e *Engine) intrinsic(st *State, f *Frame, x *ssa.Call, fn *ssa.Function, n
 		return BoolC(a.Obj != 0 && a.Obj == b.Obj), true
 	case "verifNote":
 		return nil, true
+	case "verifNative":
+		return False(), true
+	case "verifPoolPolicy":
+		st.poolPolicy = int(concreteInt(args[0]))
+		return nil, true
+	case "verifShareRoot":
+		st.shared = map[int]bool{}
+		st.sharing = true
+		e.markReachable(st, args[0], st.shared)
+		for _, id := range st.globals {
+			e.markReachable(st, PtrV{Obj: id}, st.shared)
+		}
+		return nil, true
 	case "verifImplies":
 		return Implies(args[0].(*Term), args[1].(*Term)), true
 	case "verifOr":
@@ -2226,7 +2290,17 @@ func (e *Engine) intrinsic(st *State, f *Frame, x *ssa.Call, fn *ssa.Function, n
 	case "sync/atomic.StoreInt32":
 		p := args[0].(PtrV)
 		e.require(st, BoolC(p.Obj != 0), "nil", "atomic store through nil", x)
+		e.inAtomic = true
 		e.store(st, p, args[1])
+		e.inAtomic = false
+		return nil, true
+	case "(*sync.Mutex).Lock", "(*sync.RWMutex).Lock":
+		st.locks++
+		return nil, true
+	case "(*sync.Mutex).Unlock", "(*sync.RWMutex).Unlock":
+		st.locks--
+		return nil, true
+	case "(*sync.RWMutex).RLock", "(*sync.RWMutex).RUnlock":
 		return nil, true
 	}
 	if fn.Pkg != nil && !e.targets[fn.Pkg.Pkg.Path()] && short == "init" {
